@@ -26,7 +26,7 @@ Flags
     early          can terminate before its source does
     aux            owns a second / trigger / sampler / duration / boundary source that may still be pending
     inner          subscribes several sources concurrently or in sequence (merge, concat, zip, flat_map ...)
-    sub_on         moves the subscription itself onto the scheduler (subscribe_on, delay_subscription)
+    sub_on         subscribes AND unsubscribes upstream through scheduler actions (subscribe_on)
     resub          re-subscribes to its source (retry / repeat / while_do / do_while)
 
 do_after_next / do_on_* / do_finally are deliberately NOT here (not exported from reactivex.operators; C40 owns them).
@@ -910,7 +910,7 @@ def _(g: Gen) -> tuple:
     return ops.time_interval(g.sched()), "time_interval()"
 
 
-@entry("delay_subscription", "cold_ok time agnostic sub_on")
+@entry("delay_subscription", "cold_ok time agnostic")
 def _(g: Gen) -> tuple:
     d = g.dur((0, 5, 10))
     return ops.delay_subscription(g.rel(d), g.sched()), "delay_subscription(%s)" % d
